@@ -27,7 +27,7 @@ TECHNIQUE = "runtime monitoring: sequential history + executable configuration m
 ASSUMPTIONS = ["a scene built in canonical order (nodes, parameters, attenuator, models; no observation in between) is the reference",
                "supported changes = public property setters, composition/model managers, transform/parent, attenuator attributes"]
 ENGINES = ["scene", "mockad"]
-QUICK = dict(cases=260, workers=4, timecap=50)
+QUICK = dict(cases=900, workers=4, timecap=50)
 THOROUGH = dict(cases=40000, workers=16, timecap=900)
 ASAN_MODULES = ["cherab.core.model.lineshape.gaussian", "cherab.core.model.lineshape.zeeman", "cherab.core.model.lineshape.beam.mse",
                 "cherab.core.model.plasma.impact_excitation", "cherab.core.model.plasma.recombination",
@@ -279,6 +279,33 @@ def gen_case(rng, tier):
                     return op
             return None
         hist.append(dict(op="observe"))
+        if rng.random() < 0.35:
+            # "re-attach the same object, then change that object": the dependants' subscriptions must survive
+            pairs = [("p_geometry", "p_geom_transform"), ("p_electrons", "p_comp_add"), ("p_models", "p_comp_add"), ("p_composition", "p_atomic")]
+            if sim.get("beam") is not None:
+                pairs += [("b_attenuator", "att_step"), ("b_attenuator", "att_clamp_sigma"), ("b_plasma", "p_comp_add"), ("b_plasma", "p_transform"),
+                          ("b_models", "b_energy"), ("b_element", "b_transform")] * 2
+            if sim.get("laser") is not None:
+                pairs += [("l_profile", "lp_set"), ("l_profile", "lp_set"), ("l_spectrum", "ls_set"), ("l_plasma", "p_electrons"), ("l_plasma", "p_transform"),
+                          ("l_models", "lp_set"), ("l_integrator", "l_transform")] * 3
+            what, follow = pairs[int(rng.integers(len(pairs)))]
+            for _ in range(int(rng.integers(1, 3))):
+                hist.append(dict(op="same", what=what))
+            if rng.random() < 0.5:
+                hist.append(dict(op="observe"))
+            op = None
+            for _ in range(60):
+                cand = gen_op(rng, sim)
+                if cand is not None and cand["op"] == follow:
+                    if follow == "lp_set" and what == "l_profile" and cand["attr"] not in ("laser_length", "laser_radius") and rng.random() < 0.7:
+                        continue
+                    op = cand
+                    break
+            if op is not None:
+                hist.append(op)
+                _sim_apply(sim, op)
+            hist.append(dict(op="observe"))
+            return dict(cfg=cfg, probes=probes, history=hist)
         for kinds, obs_p in ((REPLACING_OPS, 0.7), (STATE_OPS, 0.5), (STATE_OPS, 1.0)):
             for _ in range(int(rng.integers(1, 3))):
                 op = pick(kinds)
@@ -354,7 +381,7 @@ def _sim_apply(sim, op):
 
 P_OPS = ["p_bfield", "p_electrons", "p_comp_add", "p_comp_add", "p_comp_set", "p_comp_assign", "p_comp_clear", "p_geometry",
          "p_geom_transform", "p_integrator", "p_integrator_step", "p_atomic", "p_models_set", "p_models_assign", "p_models_add",
-         "p_models_clear", "p_transform", "p_transform", "p_parent", "node_transform", "pm_gaunt", "pm_quad"]
+         "p_models_clear", "p_transform", "p_transform", "p_parent", "node_transform", "pm_gaunt", "pm_quad", "same", "same"]
 B_OPS = ["b_energy", "b_power", "b_temperature", "b_sigma", "b_divergence_x", "b_divergence_y", "b_length", "b_element",
          "b_atomic", "b_plasma", "b_attenuator", "att_step", "att_clamp_sigma", "b_integrator",
          "b_integrator_step", "b_models_set", "b_models_assign", "b_models_add", "b_models_clear", "b_transform", "b_transform",
@@ -412,7 +439,7 @@ def gen_laser_op(rng, sim, k):
 
 REPLACING_OPS = {"p_models_set", "p_models_assign", "p_models_add", "p_models_clear", "b_models_set", "b_models_assign",
                  "b_models_add", "b_models_clear", "b_attenuator", "l_models_set", "l_profile", "l_spectrum", "p_geometry",
-                 "p_integrator", "b_integrator", "l_integrator"}
+                 "p_integrator", "b_integrator", "l_integrator", "same"}
 STATE_OPS = {"p_comp_add", "p_comp_set", "p_comp_assign", "p_electrons", "p_bfield", "p_atomic", "p_transform", "node_transform",
              "b_energy", "b_power", "b_element", "b_sigma", "b_length", "b_transform", "b_atomic", "att_step", "att_clamp_sigma",
              "bm_line", "lp_set", "lp_pol", "ls_set", "l_transform", "l_importance", "pm_gaunt"}
@@ -422,6 +449,13 @@ def gen_op(rng, sim):
     pc, bc = sim["plasma"], sim.get("beam")
     ops = P_OPS + (B_OPS + B_OPS if bc is not None else []) + (L_OPS + L_OPS if sim.get("laser") is not None else [])
     k = ops[int(rng.integers(len(ops)))]
+    if k == "same":
+        what = ["p_geometry", "p_integrator", "p_electrons", "p_bfield", "p_models", "p_composition", "p_transform"]
+        if bc is not None:
+            what += ["b_attenuator", "b_plasma", "b_integrator", "b_models", "b_element"] * 2
+        if sim.get("laser") is not None:
+            what += ["l_profile", "l_spectrum", "l_plasma", "l_integrator", "l_models"] * 3
+        return dict(op="same", what=what[int(rng.integers(len(what)))])
     if k in L_OPS and k != "node_transform":
         return gen_laser_op(rng, sim, k)
     present = [(s["el"], s["q"]) for s in pc["species"]]
@@ -555,7 +589,7 @@ def execute(case, ctx=None, stop_at_first=True):
             observed = True
             if diffs:
                 lab, what, mag = diffs[0]
-                obs_kind = "trace" if lab.startswith("trace") else "beam_density"
+                obs_kind = "trace" if lab.startswith("trace") else ("laser_geometry" if lab.startswith("laser_geometry") else "beam_density")
                 exc = "exception" if mag == float("inf") and "raises" in what or "exception type" in what else "values"
                 fails.append(dict(step=i, kind="stale", obs=obs_kind, mode=exc, label=lab, what=what, n_diffs=len(diffs)))
                 if stop_at_first:
@@ -723,7 +757,7 @@ def run_case(case, ctx):
             hist, complete = case["history"], False
     _BUDGET["spent"] += time.time() - t0
     def label(o):
-        return o["op"] + ("." + o["attr"] if "attr" in o else "")
+        return o["op"] + ("." + o["attr"] if "attr" in o else "") + ("." + o["what"] if "what" in o else "")
     muts = sorted(set(label(o) for o in hist if o["op"] != "observe"))
     # was an observation needed before the last mutator?
     last_mut = max([i for i, o in enumerate(hist) if o["op"] != "observe"], default=-1)
